@@ -337,6 +337,11 @@ func (c converter) K8sNetworkPolicyToCalico(np *networkingv1.NetworkPolicy) (*mo
 	// to apply to only ingress traffic.
 	if len(policyTypes) == 0 {
 		policyTypes = append(policyTypes, apiv3.PolicyTypeIngress)
+		// Mirror the Kubernetes API defaulting for objects that did not go through it (for example a
+		// StagedKubernetesNetworkPolicy): a policy with an egress section also affects egress.
+		if len(np.Spec.Egress) > 0 {
+			policyTypes = append(policyTypes, apiv3.PolicyTypeEgress)
+		}
 	}
 
 	var uid types.UID
